@@ -47,7 +47,7 @@ type Fn3 struct {
 }
 
 func (s *Fn3) Evaluate(p v3.Vec) float64 { return s.F(p) }
-func (s *Fn3) BoundingBox() sdf.Box3    { return s.BB }
+func (s *Fn3) BoundingBox() sdf.Box3     { return s.BB }
 
 type Fn2 struct {
 	F  func(v2.Vec) float64
@@ -55,7 +55,7 @@ type Fn2 struct {
 }
 
 func (s *Fn2) Evaluate(p v2.Vec) float64 { return s.F(p) }
-func (s *Fn2) BoundingBox() sdf.Box2    { return s.BB }
+func (s *Fn2) BoundingBox() sdf.Box2     { return s.BB }
 
 // Recorder3 records every evaluation of the wrapped field (points and values, in call order;
 // the order is only meaningful for single-threaded callers).
